@@ -33,6 +33,15 @@ CLAIMED = {
  "C16": ("Deductive proof of batch.run on the real code with a higher-order call protocol (Update invokes fn at most once; safelyCall returns fn's result): the failure index is set only by the attempt that just ran and is in range, the failing call is removed, batchMu is released; effect obligations: batch.run is reachable only through trigger's sync.Once, trigger only from Batch and the timer.",
          "A-lib (sync.Once, time.AfterFunc), A-conc (timer vs size trigger interleavings only through Once), user functions use only the public API (A-user). Exactly-once delivery of results is argued from the loop structure, the per-call send counter is not yet an obligation.",
          "contract-based deductive verification (SSA VC generation + SMT) + effect inference", "§6 C16"),
+ "C17": ("Deductive proof of flock (LOCK_NB|LOCK_EX iff exclusive else LOCK_NB|LOCK_SH on every attempt; nil only after flock(2) returned nil), funlock, DB.close (unlock unless read-only, file closed once), DB.Open (O_RDONLY and no O_CREATE for read-only, O_RDWR|O_CREATE otherwise; shared lock for read-only, exclusive otherwise; read-only open starts no write transaction), DB.beginRWTx (read-only database refuses write transactions before taking any lock); effect obligations over the SSA call graph: mmap is called with PROT_READ, the only callers of writeAt / Truncate / flock / funlock are the expected ones, every CLI inspection command opens with ReadOnly:true, dump/page/page-item reach no write primitive.",
+         "Trusted: flock(2)/mmap(2)/O_RDONLY kernel semantics (A-os-flock, A-os-mmap), cross-process behaviour and timing are not decided. Several preconditions inside Open are skipped (listed in the evidence) because sync.Pool and logger callbacks are outside the subset.",
+         "contract-based deductive verification (SSA VC generation + SMT) + effect inference over the SSA call graph", "§6 C17"),
+ "C19": ("Deductive proof of verifyPageReachable (every page of an overflow run: already-reachable, free, out-of-bounds or wrongly typed pages each force a report; a clean page forces none — 'and only that'), verifyKeyOrder (each of the four ordering violations forces a report, none of them forces silence), the CLI closure of `bbolt check` (any received problem => ErrCorrupt, none => nil) and main (non-nil command error => os.Exit with non-zero status). A bounded scenario on the real code stands in when a function cannot be brought within reach.",
+         "Traversal coverage of forEachPage/ForEachBucket (A-tree) and Tx.check's own loops are not under contract; channel receives are havoc with a ghost receive counter.",
+         "contract-based deductive verification (SSA VC generation + SMT, ghost send/receive logs)", "§6 C19"),
+ "C13": ("Deductive proof that the freelist is loaded exactly once (sync.Once protocol) and from the right source: DB.loadFreelist reads page(meta.freelist) when the freelist is persisted and otherwise initialises from the scan (freepages); Tx.rollback reloads with Reload/NoSyncReload by the same test; Open probes the page size from the meta pages whenever the file exists (an explicit Options.PageSize is not trusted). Both back ends are reached only through the one freelist interface contract.",
+         "That logical content is independent of page size, of which free run the allocator hands out and of map size is tree-level and not decided (A-tree); freepages' traversal is assumed (opaque contract).",
+         "contract-based deductive verification (SSA VC generation + SMT, ghost call counters)", "§6 C13"),
 }
 NA_REASON = {}
 
